@@ -11,9 +11,11 @@ REPO = os.environ.get("VERIF_REPO", "/repo")
 
 ENGINES = {
     "C12": "pool",
+    "C20": "history",
 }
 MODULES = {
     "pool": "annetsim.engines.pool",
+    "history": "annetsim.engines.history",
 }
 
 
